@@ -295,9 +295,9 @@ func (w *c28Worker) insertExplicit(above bool) {
 	w.add(&ledgerEntry{Kind: "explicit", ID: id, Call: call, Ret: ret, Stmt: q, Payload: p})
 }
 
-func (w *c28Worker) endTx(how string) {
+func (w *c28Worker) endTx(how string) string {
 	if w.ac {
-		return
+		return "autocommit"
 	}
 	q := "commit"
 	if how == "rollback" {
@@ -322,26 +322,27 @@ func (w *c28Worker) endTx(how string) {
 	w.run.mu.Unlock()
 	w.local = nil
 	w.note("tx_" + end)
+	return end
 }
 
 func (w *c28Worker) ddl(kind string) {
 	w.endTx("commit")
-	ev := ddlEvent{Kind: kind, Branch: w.branch, Sess: w.id}
-	var q string
+	if kind == "drop" {
+		w.dropAndRecreate()
+		return
+	}
+	ev := ddlEvent{Kind: "alter", Branch: w.branch, Sess: w.id}
 	switch kind {
 	case "alter-up":
-		ev.Kind, ev.N = "alter", w.run.maxSeen.Load()+5+int64(w.r.Intn(60))
-		q = fmt.Sprintf("alter table a auto_increment = %d", ev.N)
+		ev.N = w.run.maxSeen.Load() + 5 + int64(w.r.Intn(60))
 	case "alter-down":
 		m := w.run.maxSeen.Load()
 		if m < 4 {
 			return
 		}
-		ev.Kind, ev.N = "alter", 1+w.r.Int63n(m)
-		q = fmt.Sprintf("alter table a auto_increment = %d", ev.N)
-	case "drop":
-		q = "drop table a"
+		ev.N = 1 + w.r.Int63n(m)
 	}
+	q := fmt.Sprintf("alter table a auto_increment = %d", ev.N)
 	ev.Call = rig.Mono()
 	err := w.x.Exec(q)
 	ev.Ret = rig.Mono()
@@ -350,30 +351,66 @@ func (w *c28Worker) ddl(kind string) {
 		if sqlrig.IsConnErr(err) {
 			w.reconnect()
 		}
-		if w.stats["ddl_error_notes"] < 2 {
-			w.stats["ddl_error_notes"]++
-			w.run.c.Note("c28: " + q + " failed: " + firstLine(err.Error()))
-		}
+		w.noteDDLError(q, err)
 	}
-	if kind == "drop" {
-		// an errored drop may still have happened: it cuts the ledger either way
-		c2 := rig.Mono()
-		err2 := w.x.Exec(c28Create)
-		if err2 != nil {
-			w.note("recreate_errors")
-		}
-		_ = c2
-		w.endTx("commit")
-		ev.Ret = rig.Mono() // the cut spans drop, recreate and their commit
-	} else {
-		w.endTx("commit")
-	}
+	w.endTx("commit")
 	w.run.mu.Lock()
 	w.run.ddl = append(w.run.ddl, ev)
 	w.run.mu.Unlock()
 	w.note("ddl_" + kind)
 	if err != nil {
 		w.note("ddl_" + kind + "_errors")
+	}
+}
+
+func (w *c28Worker) noteDDLError(q string, err error) {
+	if w.stats["ddl_error_notes"] < 2 {
+		w.stats["ddl_error_notes"]++
+		w.run.c.Note("c28: " + q + " failed: " + firstLine(err.Error()))
+	}
+}
+
+// dropAndRecreate tries DROP TABLE a; CREATE TABLE a (same definition) on the current branch until one attempt is
+// committed (other sessions keep inserting into the same branch, so the drop's commit often loses with a schema
+// conflict). A committed drop cuts the ledger (kind "drop"); an attempt that was rejected and rolled back did not
+// happen and cuts nothing (kind "failed-drop"); an attempt with a connection error may have happened (cut).
+func (w *c28Worker) dropAndRecreate() {
+	for attempt := 0; attempt < 6; attempt++ {
+		ev := ddlEvent{Kind: "drop", Branch: w.branch, Sess: w.id}
+		ev.Call = rig.Mono()
+		err := w.x.Exec("drop table a")
+		end := ""
+		if err == nil {
+			if err2 := w.x.Exec(c28Create); err2 != nil {
+				w.note("recreate_errors")
+				w.noteDDLError("create table a", err2)
+			}
+			end = w.endTx("commit")
+		}
+		ev.Ret = rig.Mono()
+		switch {
+		case err != nil && sqlrig.IsConnErr(err), end == "indeterminate":
+			if err != nil {
+				w.reconnect()
+			}
+			ev.Err = "indeterminate"
+		case err != nil || end == "commit-failed":
+			ev.Kind = "failed-drop"
+			if err != nil {
+				ev.Err = err.Error()
+				w.noteDDLError("drop table a", err)
+				w.endTx("rollback")
+			} else {
+				ev.Err = "commit of drop+create rejected"
+			}
+		}
+		w.run.mu.Lock()
+		w.run.ddl = append(w.run.ddl, ev)
+		w.run.mu.Unlock()
+		w.note("ddl_" + ev.Kind)
+		if ev.Kind == "drop" {
+			return
+		}
 	}
 }
 
@@ -536,13 +573,26 @@ func (run *c28Run) exec() {
 func (run *c28Run) analyse() map[string]int {
 	c := run.c
 	st := run.stats
-	var drops, alters []ddlEvent
+	var drops, failedDrops, alters []ddlEvent
 	for _, d := range run.ddl {
-		if d.Kind == "drop" {
+		switch {
+		case d.Kind == "drop":
 			drops = append(drops, d)
-		} else if d.Err == "" {
+		case d.Kind == "failed-drop":
+			failedDrops = append(failedDrops, d)
+		case d.Err == "":
 			alters = append(alters, d)
 		}
+	}
+	// A DROP TABLE that was rejected and rolled back did not happen: it cuts nothing. Violations with such an attempt in
+	// between get their own key class so that they can be judged separately.
+	failedDropBetween := func(first, second *ledgerEntry) bool {
+		for _, fd := range failedDrops {
+			if fd.Ret > first.Call && fd.Call < second.Ret {
+				return true
+			}
+		}
+		return false
 	}
 	var led []*ledgerEntry
 	for _, e := range run.ledger {
@@ -617,6 +667,9 @@ func (run *c28Run) analyse() map[string]int {
 					}
 					key = "c28/after-lowering-alter/duplicate-generated-id/" + cls
 					what += " (an ALTER TABLE … AUTO_INCREMENT = N with N at or below it ran in between; both rows were committed)"
+				} else if failedDropBetween(a, b) {
+					key = "c28/after-failed-drop/duplicate-generated-id/" + cls
+					what += " (a DROP TABLE attempt that was rejected and rolled back ran in between)"
 				}
 				report(c, key, what, wit(a, b))
 			}
@@ -675,6 +728,8 @@ func (run *c28Run) analyse() map[string]int {
 					continue
 				}
 				key = "c28/after-lowering-alter/sequence-went-backwards/" + cls
+			} else if failedDropBetween(m, g) {
+				key = "c28/after-failed-drop/sequence-went-backwards/" + cls
 			}
 			report(c, key, fmt.Sprintf("insert invoked at %d was given generated id %d although an insert that had returned at %d held id %d (%s)", g.Call, g.ID, m.Ret, m.ID, m.Kind), wit(m, g))
 			break
@@ -702,5 +757,6 @@ func (run *c28Run) analyse() map[string]int {
 		active = append(active, g)
 	}
 	st["drops"] += len(drops)
+	st["failed_drops"] += len(failedDrops)
 	return st
 }
